@@ -7,6 +7,11 @@ ALL = ["C%02d" % i for i in range(1, 20)]
 
 # id -> (category, technique, level text, level note, design ref)
 CHECKS = {
+    "C13": ("model_checking",
+            "stateless choice-tree exploration of hash-set iteration order through a hook, plus a repeat-run differential on the real binary",
+            "The only iteration over a hash container that reaches an output (parser::check_definition) is turned into a choice point by hook H1; a stateless DFS explorer replays permutation prefixes and enumerates every permutation at every choice point for every member of the definition-order family (all groups of up to 3/4 definitions, each a literal, a lambda or a non-value expression mentioning any subset of the group; top level and nested in a called function). All leaves of a program's choice tree must be byte-identical results. The ownership of the nondeterminism is cross-checked by launching the real binary (hooks off, fresh hash seed per process) 6/24 times per file on the examples and on multi-diagnostic programs, for both `check` and `run`.",
+            "Trusted: hook H1 (identity on ordered containers, so a repaired tree has no choice points). The process-level part is a repeat-run differential (sampling of hash seeds), labelled as such; the deciding step is the exhaustive permutation tree.",
+            "DESIGN.md 6/C13"),
     "C15": ("exploration",
             "bounded exhaustive enumeration of texts/ranges, parse-tree node ranges and planted faults in systematically varied layouts",
             "(a) error::listing is called on every text up to 5/6 fragments (ASCII, 2- and 4-byte letters, space, tab, LF, CRLF) with every diagnostic-shaped range and compared with a specification of the listing (lines shown, 1-based numbers, marked character columns). (b) Every node of the parse result of every sentence up to the bounds must carry a range inside the file whose text re-parses to that node. (c) Every sentence up to the bounds is laid out in 9 ways (fault on line 1/2/9/10, after non-ASCII text on the same line, broken over several lines, CRLF) with planted faults - every use unbound, every binder re-bound (all binder forms), a stray symbol in every gap - and the reported listing must mark exactly the planted identifier or symbol. Type faults are planted by the typed-program sweeps with the same oracle.",
